@@ -36,9 +36,11 @@ type HistCheck struct {
 	// Final is called at the end of a legal history; it returns the problems found and an outcome class.
 	Final func(s *scn.Scn) (problems []*scn.Problem, outcome string, err error)
 
-	rep        *ev.Reporter
-	harnessErr error
-	hmu        sync.Mutex
+	rep            *ev.Reporter
+	harnessErr     error
+	hmu            sync.Mutex
+	unconfirmed    int
+	unconfirmedMsg string
 }
 
 // Detail is what a violation replay file contains.
@@ -105,7 +107,14 @@ func (hc *HistCheck) RunFunc(l Layer) explore.RunFunc {
 			for i := 0; i < 2; i++ {
 				_, p2, _, _, t2, err2 := hc.exec(l.Cfg, hist)
 				if err2 != nil || !sameProblems(probs, p2) || strings.Join(t2, ";") != strings.Join(trace, ";") {
-					hc.setHarnessErr(fmt.Errorf("%s: nondeterministic replay of %v: first=%v again=%v err=%v", l.Name, hist, probs, p2, err2))
+					// Not reproducible: never reported as a violation. Remembered; if the run ends without
+					// any confirmed violation the check ends as a harness error (exit 2), not as a pass.
+					hc.hmu.Lock()
+					hc.unconfirmed++
+					if hc.unconfirmedMsg == "" {
+						hc.unconfirmedMsg = fmt.Sprintf("%s: nondeterministic replay of %v: first=%v again=%v err=%v", l.Name, hist, probs, p2, err2)
+					}
+					hc.hmu.Unlock()
 					return explore.Result{Legal: true, Key: key, Outcome: "nondeterministic"}
 				}
 			}
@@ -122,12 +131,21 @@ func (hc *HistCheck) RunFunc(l Layer) explore.RunFunc {
 	}
 }
 
+// sameProblems compares the kinds of problems of two executions of the same
+// history (details may embed wall-clock-relative text such as millisecond offsets).
 func sameProblems(a, b []*scn.Problem) bool {
-	if len(a) != len(b) {
+	ka, kb := map[string]bool{}, map[string]bool{}
+	for _, p := range a {
+		ka[p.Kind] = true
+	}
+	for _, p := range b {
+		kb[p.Kind] = true
+	}
+	if len(ka) != len(kb) {
 		return false
 	}
-	for i := range a {
-		if a[i].Kind != b[i].Kind || a[i].Detail != b[i].Detail {
+	for k := range ka {
+		if !kb[k] {
 			return false
 		}
 	}
@@ -202,6 +220,10 @@ func (hc *HistCheck) RunLayers(layers []Layer, budget time.Duration, assumptions
 		return 2
 	}
 	code := hc.rep.Finish()
+	if code == 0 && hc.unconfirmed > 0 {
+		fmt.Fprintf(os.Stderr, "HARNESS ERROR (no verdict): %d oracle failures did not reproduce on replay, e.g. %s\n", hc.unconfirmed, hc.unconfirmedMsg)
+		return 2
+	}
 	fmt.Printf("[%s] %s tier: runs=%d transitions=%d states=%d distinct_outcomes=%d exhaustive=%v wall=%.1fs exit=%d\n",
 		hc.ID, ev.Tier(), total.Runs, total.Transitions, total.States, total.DistinctOutcome, total.Exhaustive, t.S(), code)
 	return code
